@@ -24,7 +24,8 @@ assert_in_tree(clienting, httping)
 PID = "C15"
 RULE = ("cases: event streams of 1-6 events built from field lines (data x 0-3, event, id, retry, comments, unknown fields, "
         "colon-less lines, values with leading blanks / colons / unicode), terminator per line from CRLF/LF/CR, delivered in a "
-        "generated fragmentation via EventSource, close-delimited Respondent and chunked Respondent. non-trivial = >= 2 "
+        "generated fragmentation, with 0-2 parse passes that bring no new bytes after each read, via EventSource, "
+        "close-delimited Respondent and chunked Respondent. non-trivial = >= 2 "
         "terminator kinds, a multi-line data field, and a cut between a CR and the following byte; distinct = canonical hash")
 ASSUMPTIONS = ["retry values are either ASCII digit strings or clearly non-numeric (signs / underscores are not generated: "
                "the statement does not define them)", "no byte order mark (hio's parseEvents does not document one)"]
@@ -89,15 +90,17 @@ def reference(stream):
     return events, leid, retry
 
 
-def run_es(stream, frags):
+def run_es(stream, frags, idle=(0,)):
     es = httping.EventSource()
-    for f in frags:
+    for i, f in enumerate(frags):
         es.raw.extend(f)
         es.parse()
+        for _ in range(idle[i % len(idle)]):        # service passes that bring no new bytes
+            es.parse()
     return [dict(e) for e in es.events], es.leid, es.retry
 
 
-def run_resp(stream, case, frags_of):
+def run_resp(stream, case, frags_of, idle=(0,)):
     if case["transport"] == "close":
         head = b"HTTP/1.1 200 OK\r\nContent-Type: text/event-stream\r\n\r\n"
         data = head + stream
@@ -117,9 +120,11 @@ def run_resp(stream, case, frags_of):
         data = head + bytes(body)
     msg = bytearray()
     rsp = clienting.Respondent(msg=msg, method="GET")
-    for f in frags_of(data):
+    for i, f in enumerate(frags_of(data)):
         msg.extend(f)
         rsp.parse()
+        for _ in range(idle[i % len(idle)]):
+            rsp.parse()
     if case["transport"] == "close":
         rsp.close()
         rsp.parse()
@@ -133,12 +138,13 @@ def run_case(case):
     exp = reference(stream)
     tr = case["transport"]
     frag = lambda data: httpgen.fragments(data, case["cuts"])
+    idle = tuple(case.get("idle") or (0,))
     if tr == "es":
         frags = frag(stream)
-        got = run_es(stream, frags)
+        got = run_es(stream, frags, idle)
         whole = run_es(stream, [stream])
     else:
-        e, l, rt, _rsp = run_resp(stream, case, frag)
+        e, l, rt, _rsp = run_resp(stream, case, frag, idle)
         got = (e, l, rt)
         e2, l2, rt2, _ = run_resp(stream, case, lambda d: [d])
         whole = (e2, l2, rt2)
@@ -173,6 +179,8 @@ def run_case(case):
     r.labels.append("eol-kinds=%d" % len(kinds))
     if cr_cut:
         r.labels.append("cut-after-CR")
+    if any(idle):
+        r.labels.append("idle-passes-between-reads")
     if multi:
         r.labels.append("multi-line-data")
     r.labels.append("events=%d" % min(len(exp[0]), 4))
@@ -229,7 +237,8 @@ def stream_lines(draw, eols=("crlf", "lf", "cr")):
 def _case(eols=("crlf", "lf", "cr")):
     return st.fixed_dictionaries({
         "lines": stream_lines(eols), "transport": st.sampled_from(["es", "close", "chunked"]),
-        "chunks": st.lists(st.integers(1, 23), max_size=5), "cuts": httpgen.cuts()})
+        "chunks": st.lists(st.integers(1, 23), max_size=5), "cuts": httpgen.cuts(),
+        "idle": st.one_of(st.just([0]), st.lists(st.integers(0, 2), min_size=1, max_size=4))})
 
 
 def searches(tier):
